@@ -729,14 +729,69 @@ def src_search_cells(ctx):
     differing = set(boccells.diff_cells(ctx, recs + [r for r in extra if r not in recs]))
     ctx.count('src-search-cell-grid', len(grid))
     ctx.count('src-search-whole-cell-records-differing', len(differing))
-    first = [t for t in grid if any(r in differing for r in t[3])]
-    rest = [t for t in grid if not any(r in differing for r in t[3])]
+    # whole bags through the regenerated Boc.deserialize (test callback) vs the hand model: conforming grid bags and their
+    # reference / root corruptions (the loops: order check, dangling / self references, root indices)
+    bags = [t[1] for t in grid if len(t[1]) <= 200][:250] + [d for _, d in boccells.bag_cases(ctx.rng, 200)]
+    bagdiff = set(boccells.diff_bags(ctx, bags))
+    ctx.count('src-search-bags-differing', len(bagdiff))
+    first = [t for t in grid if any(r in differing for r in t[3]) or t[1] in bagdiff]
+    rest = [t for t in grid if not (any(r in differing for r in t[3]) or t[1] in bagdiff)]
     for tag, d, oracle, _ in first + rest:
         ctx.case(('src', d), nontrivial=False)
         oracle(ctx)
         if len(ctx.failures) >= 3:
             break
+    if not ctx.failures:
+        # corruptions of the small DAG bags: every reference rewritten to a backward / self / dangling position, every root
+        # rewritten to an index behind the last cell - each must be rejected
+        for (tag, case) in cell_grid_cases(ctx.rng):
+            for kind in ('dangling', 'backward', 'self'):
+                bad_refs_all(ctx, case, tag, kind)
+            if len(ctx.failures) >= 3:
+                break
     return bool(ctx.failures)
+
+
+def cell_grid_cases(rng):
+    """the small DAG / reference cases of cell_grid as case dicts (for reference and root corruptions)"""
+    out = []
+    leaves = [(G.ORD, format(k, '05b'), ()) for k in range(4)]
+    shapes = [(leaves + [(G.ORD, '101', tuple(range(k)))], [4, 3, 2, 1, 0], [4]) for k in range(1, 5)]
+    nodes = [(G.ORD, '1', ()), (G.ORD, '01', (0, 0)), (G.ORD, '001', (1, 0)), (G.ORD, '0001', ())]
+    shapes += [(nodes, order, roots) for order in ([2, 1, 0, 3], [3, 2, 1, 0], [2, 3, 1, 0]) for roots in ([2], [2, 3], [1, 2, 0])]
+    for t, (nodes, order, roots) in enumerate(shapes):
+        spec = G.spec_dag(nodes)
+        recs = listing(nodes, spec, order)
+        for size in (1, 2):
+            fr = dict(magic='g', size=size, off=2, idx=False, crc=False, cache=False, store=[], cflags=[])
+            out.append((f'src-corrupt{t}-{size}', dict(nodes=nodes, order=order, roots=roots, recs=recs, rpos=[order.index(r) for r in roots], fr=fr)))
+    return out
+
+
+def bad_refs_all(ctx, case, tag, kind):
+    """every reference of every record rewritten (one at a time): dangling (= cells), backward (= 0 for a record behind
+    position 0 / own position - 1), self (= own position); every root rewritten to `cells`"""
+    recs, fr = case['recs'], case['fr']
+    n = len(recs)
+    for p, r in enumerate(recs):
+        for j in range(len(r['refs'])):
+            v = n if kind == 'dangling' else p if kind == 'self' else p - 1
+            if v < 0:
+                continue
+            recs2 = [dict(x) for x in recs]
+            recs2[p] = dict(r, refs=list(r['refs']))
+            recs2[p]['refs'][j] = v
+            data = py_encode(recs2, case['rpos'], fr)
+            ctx.case(('badref', data))
+            must_reject(ctx, data, f'badref:{kind}', f'{kind} reference (cell {p} ref {j} -> {v} of {n} cells) accepted',
+                        case_input(case, tag=tag, cell=p, ref=j, value=v))
+    if kind == 'dangling':
+        for j in range(len(case['rpos'])):
+            rp = list(case['rpos'])
+            rp[j] = n
+            data = py_encode(recs, rp, fr)
+            ctx.case(('badroot', data))
+            must_reject(ctx, data, 'badroot', f'root index {n} >= cells {n} accepted', case_input(case, tag=tag, root=n))
 
 
 def src_search(ctx):
